@@ -82,7 +82,8 @@ func targetImpls(p *core.Prog, method string) []*ssa.Function {
 func runC13(p *core.Prog, r *core.Result) {
 	r.Decided = []string{
 		"R13.1 every call in (*runTarget).Evaluate from which a file-system or process effect is reachable (the body, the record writes) is on the not-dry-run edge; the up-to-date checks reach no such effect",
-		"R13.2 a dry run reports what a real run reports: it marks the target changed and succeeded, and every Target.evaluate implementation reports changed=true on success",
+		"R13.2 a dry run reports what a real run reports: it marks the visited target as assumed to change in this run (unconditionally; the dependency loop reads the mark) and reports success with changed=true, and every Target.evaluate implementation reports changed=true on success",
+		"R13.5 a dry run leaves nothing behind in memory that a later run reads: it does not write runTarget.changed (which real runs read and which is never reset), its own mark carries the number of the run, and that number advances before every run - so on a Project used for several runs (REPL, run() builtin, watch) a dry run does not change what the next real build does",
 		"R13.3 the dry-run flag is assigned on every path of RunOptions.apply (it cannot leak into the next run)",
 		"R13.4 'evaluating' is reported before the dry-run test",
 	}
@@ -147,33 +148,100 @@ func runC13(p *core.Prog, r *core.Result) {
 		}
 	}
 	r.Floor("R13.2", succeeding, 1, "successful returns of Target.evaluate implementations")
-	// dry branch: store true to changed + Succeeded
-	okDry := false
-	core.Instrs(m.Fn, func(in ssa.Instruction) {
-		st, ok := in.(*ssa.Store)
-		if !ok || !core.IsField(st.Addr, pkgRoot, "runTarget", "changed") {
-			return
-		}
-		if b, ok := core.ConstBool(st.Val); ok && b && holds(p, st, true, func(v ssa.Value) bool { return projField(v, "dryrun") }) {
-			for _, c := range m.Events["TargetSucceeded"] {
-				if c.Block() == st.Block() || core.Dominates(st, c) {
-					okDry = true
-				}
-			}
-		}
-	})
-	// every store to changed on the dry edge is the constant true (nothing "more precise": every real evaluation
-	// reports changed=true, see above), and the success event carries the constant true
+	// dry branch: the target is marked "assumed to change in this run" and success is reported. The mark is
+	// run-scoped: a field of the runTarget that receives the number of the current run (Project.run), which the
+	// dependency loop compares with the current run's number under Project.dryrun. The `changed` flag, which real
+	// runs read and which is never reset (R1.10), is not written by a dry run (R13.5).
+	isRunNo := func(v ssa.Value) bool { return core.LoadOfField(v, pkgRoot, "Project", "run") }
+	onDry := func(in ssa.Instruction) bool {
+		return holds(p, in, true, func(v ssa.Value) bool { return projField(v, "dryrun") })
+	}
+	markField := ""
+	var markStores []*ssa.Store
 	nDry := 0
 	core.Instrs(m.Fn, func(in ssa.Instruction) {
 		st, ok := in.(*ssa.Store)
-		if !ok || !core.IsField(st.Addr, pkgRoot, "runTarget", "changed") || !holds(p, st, true, func(v ssa.Value) bool { return projField(v, "dryrun") }) {
+		if !ok || !onDry(st) {
+			return
+		}
+		owner, fld := core.FieldOf(st.Addr)
+		if owner == nil || owner.Obj().Name() != "runTarget" {
 			return
 		}
 		nDry++
-		b, isConst := core.ConstBool(st.Val)
-		r.Check(isConst && b, "R13.2", fmt.Sprintf("dawn.(*runTarget).Evaluate#dry-changed-%d", nDry), p.InstrPos(st), "a dry run marks the visited out-of-date target changed, unconditionally", "in a dry run the target is not unconditionally marked changed: a real build re-runs it with changed=true (a source regenerated by an out-of-date generator, for instance), so the dry run predicts its dependents up to date while the real build attempts them")
+		construct := fmt.Sprintf("dawn.(*runTarget).Evaluate#dry-mark-%d", nDry)
+		if fld == "changed" {
+			r.Bad("R13.5", construct, p.InstrPos(st), "a dry run writes runTarget.changed, the flag by which a target that really executed forces its dependents in later runs of the same Project and which is never reset: after a dry run (the REPL's run(dry_run=True), watch mode) a real build of the unchanged tree re-executes every target the dry run visited - the dry run changed what the next real build does")
+			return
+		}
+		if isRunNo(st.Val) {
+			markField = fld
+			markStores = append(markStores, st)
+			r.OK("R13.2", construct, p.InstrPos(st), "the visited out-of-date target is marked as assumed to change in this run (runTarget.%s = Project.run), unconditionally", fld)
+			return
+		}
+		r.Bad("R13.2", construct, p.InstrPos(st), "in a dry run runTarget.%s receives something other than the number of the current run: a real build re-runs the target with changed=true, so the mark must be unconditional, and it must not outlive the run", fld)
 	})
+	if nDry == 0 {
+		r.Bad("R13.2", "dawn.(*runTarget).Evaluate#dry-mark-1", p.Pos(m.Fn.Pos()), "the dry-run branch does not mark the target as changed at all: its dependents are predicted up to date while a real build attempts them")
+	}
+	r.OK("R13.5", "dawn.(*runTarget).Evaluate#dry-run-leaves-changed-alone", p.Pos(m.Fn.Pos()), "examined %d store(s) to runTarget fields on the dry edge (violations are listed separately)", nDry)
+	okDry := false
+	for _, st := range markStores {
+		for _, c := range m.Events["TargetSucceeded"] {
+			if onDry(c) && (c.Block() == st.Block() || core.Dominates(st, c)) {
+				okDry = true
+			}
+		}
+	}
+	// the reader: the dependency loop counts a dependency as out of date when, in a dry run, its mark is this run's
+	okReader := false
+	if markField != "" {
+		// in the dependency function or a predicate helper of the package it calls
+		readers := []*ssa.Function{m.DepsFn}
+		for _, c := range core.Calls(m.DepsFn) {
+			if h := core.Callee(c); h != nil && h.Pkg == m.DepsFn.Pkg && h.Blocks != nil && h != m.Save {
+				readers = append(readers, h)
+			}
+		}
+		for _, rf := range readers {
+			core.Instrs(rf, func(in ssa.Instruction) {
+				bo, ok := in.(*ssa.BinOp)
+				if !ok || bo.Op != token.EQL {
+					return
+				}
+				a, b := core.LoadOfField(bo.X, pkgRoot, "runTarget", markField), core.LoadOfField(bo.Y, pkgRoot, "runTarget", markField)
+				if (a && isRunNo(bo.Y)) || (b && isRunNo(bo.X)) {
+					okReader = true
+				}
+			})
+		}
+	}
+	r.Check(okReader, "R13.2", "dawn.(*runTarget).Evaluate#dry-mark-read", p.Pos(m.DepsFn.Pos()), "the dependency loop compares a dependency's dry-run mark with the number of the current run", "the mark a dry run leaves on a visited target is not read back by the dependency loop: dependents of a target that would run are predicted up to date")
+	// the run number advances with every run, before the runner starts: marks of earlier dry runs never match
+	if run := need(p, r, "R13.5", "", "Project", "Run"); run != nil {
+		var inc *ssa.Store
+		core.Instrs(run, func(in ssa.Instruction) {
+			st, ok := in.(*ssa.Store)
+			if !ok || !core.IsField(st.Addr, pkgRoot, "Project", "run") {
+				return
+			}
+			if bo, ok := st.Val.(*ssa.BinOp); ok && bo.Op == token.ADD && isRunNo(bo.X) {
+				if k, ok := core.ConstInt(bo.Y); ok && k == 1 {
+					inc = st
+				}
+			}
+		})
+		okInc := inc != nil
+		for _, c := range core.Calls(run) {
+			if core.IsCallTo(c, pkgRunner, "Run") && inc != nil && !core.Dominates(inc, c.(ssa.Instruction)) {
+				okInc = false
+			}
+		}
+		if len(markStores) > 0 {
+			r.Check(okInc, "R13.5", "dawn.(*Project).Run#advances-run-number", p.Pos(run.Pos()), "every run gets a new number before the runner starts: the marks of an earlier dry run match no later run", "the run number is not advanced before every run: the marks a dry run left on the targets it visited are still taken for this run's, and the next build re-executes up-to-date targets")
+		}
+	}
 	for i, c := range m.Events["TargetSucceeded"] {
 		if !holds(p, c, true, func(v ssa.Value) bool { return projField(v, "dryrun") }) {
 			continue
@@ -181,7 +249,7 @@ func runC13(p *core.Prog, r *core.Result) {
 		b, isConst := core.ConstBool(c.Call.Args[len(c.Call.Args)-1])
 		r.Check(isConst && b, "R13.2", fmt.Sprintf("dawn.(*runTarget).Evaluate#dry-succeeded-%d", i+1), p.InstrPos(c), "the dry run reports success with changed=true, as a real evaluation does", "the dry run reports a different 'changed' than a real evaluation (which always reports true)")
 	}
-	r.Check(okDry, "R13.2", "dawn.(*runTarget).Evaluate#dry-branch", p.Pos(m.Fn.Pos()), "the dry-run branch marks the target changed and reports success", "the dry-run branch does not mark the target changed (dependents would be predicted up to date) or does not report success")
+	r.Check(okDry, "R13.2", "dawn.(*runTarget).Evaluate#dry-branch", p.Pos(m.Fn.Pos()), "the dry-run branch marks the target as assumed to change and reports success", "the dry-run branch does not mark the target as changed before it reports success (dependents would be predicted up to date)")
 	// the dry branch returns before the body
 	for _, ret := range core.ReturnsOf(m.Fn) {
 		if holds(p, ret, true, func(v ssa.Value) bool { return projField(v, "dryrun") }) && core.Dominates(m.Evaluate, ret) {
